@@ -575,6 +575,27 @@ def check_corpus(chk: core.Check):
                                  {"cls": cname, "op": "partcat", "fields": [], "corpus": "one_row_piece"})
                 except Exception as e:   # noqa
                     chk.fail("selection total", case, repr(e)[:300], {"cls": cname, "op": "partcat", "corpus": "one_row_piece", "exc": type(e).__name__})
+        # (g) a pickled set comes back in its OWN namespace, every field of it (the derived weights and evidence of a weighted set included),
+        #     and can be used as before: selected, pickled again
+        for cname, K in (("base", BaseSamples), ("samples", Samples), ("smc", SMCSamples)):
+            extra = {"beta": 0.5} if cname == "smc" else {}
+            case = {"level": "corpus", "what": "namespace of every field after a pickle round trip", "cls": cname, "ns": nsn}
+            chk.count("corpus:pickle_namespace")
+            chk.case(case if chk.evaluations < 40 else None, json.dumps(case))
+            try:
+                s0 = K(x=xs, xp=xp, dtype=dt, **cols, **extra)
+                t1 = pickle.loads(pickle.dumps(s0))
+                t2 = pickle.loads(pickle.dumps(t1[1:5]))
+                bad = []
+                for obj, nm in ((t1, "after one round trip"), (t2, "selected and pickled again")):
+                    for fname, v in vars(obj).items():
+                        if fname != "xp" and hasattr(v, "shape") and hasattr(v, "dtype") and not callable(v) and ns.ns_of(v) != nsn:
+                            bad.append(f"{fname} {nm}: {ns.ns_of(v)}")
+                if bad or not np.array_equal(npf(t2.x), xs[1:5]):
+                    chk.fail("pickling keeps rows aligned", case, f"fields of a {nsn} set that came back in another namespace: {bad[:5]}",
+                             {"cls": cname, "op": "pickle", "fields": [], "corpus": "pickle_namespace"})
+            except Exception as e:   # noqa
+                chk.fail("selection total", case, repr(e)[:300], {"cls": cname, "op": "pickle", "corpus": "pickle_namespace", "exc": type(e).__name__})
         # (c) evidence attached to a set without weights
         for missing in ("log_q", "log_likelihood", "log_prior"):
             for how in ("to_standard_samples", "attribute"):
